@@ -348,6 +348,8 @@ def pure(kind, m=2, r=0, pool=None):
     if kind == "cmp_le":  # not symmetric: (element, given value) / (element of the first, element of the second) are different roles
         return lambda a, b: h(a) % 3 <= h(b) % 3
     if kind == "acc":
+        if r % 2:  # the running state itself becomes falsy whenever a falsy element arrives (and the next step depends on it)
+            return lambda a, x: ("a", a, x) if x else x
         return lambda a, x: ("a", a, x)
     if kind == "num":
         return lambda x: h(x) % 7
@@ -367,7 +369,7 @@ def pure(kind, m=2, r=0, pool=None):
 # ------------------------------------------------------------------ sources
 
 class SubRec:
-    __slots__ = ("sub_seq", "sub_t", "disp_seq", "disp_t", "observer", "term_seq")
+    __slots__ = ("sub_seq", "sub_t", "disp_seq", "disp_t", "observer", "term_seq", "sched")
 
     def __init__(self, seq, t, observer):
         self.sub_seq = seq
@@ -376,6 +378,7 @@ class SubRec:
         self.disp_t = None
         self.observer = observer
         self.term_seq = None  # when the source delivered its terminal notification to this observer
+        self.sched = None  # the scheduler this subscription was given (sources without a scheduler of their own take their timing from it)
 
     def open(self):
         return self.disp_seq is None
@@ -430,6 +433,7 @@ class SimSource(Observable):
     def _subscribe_core(self, observer, scheduler=None):
         w = self.w
         rec = SubRec(w.tick(), w.now(), observer)
+        rec.sched = scheduler
         self.subs.append(rec)
 
         def closed():
